@@ -137,7 +137,7 @@ def dash (l : List String) (sep : String) : String := if l.isEmpty then "-" else
 def outcome (cx : Ctx) (short : Bool) (b : BState) : String :=
   let slots := finalWant b
   let changes := slots.map (fun s => (s, change cx.env cx.reps s))
-  let lost := lostFlag cx.env cx.classes cx.reps changes
+  let lost := lostFlag cx.env cx.reps changes
   let uuidOf := fun (id : Nat) => let p := cx.mountPos[id]!; (mountUUID p.1 p.2).toList
   let urlOf := fun (si : Nat) => (srvURL si).toList
   let blkid := (cx.hash ++ "+123").toList
@@ -208,7 +208,7 @@ def runBlock (hash : String) (minM : Int) (svcs : List PService) (reps : List (N
     { rank := fun si => rankA[si]?.getD 0,
       devLess := fun a b => devW[a]?.getD 0 < devW[b]?.getD 0,
       minMtime := minM,
-      desired := fun c => ((des.find? (fun p => codeOf p.1 == c)).map (·.2)).getD 0 }
+      desiredMap := des.map fun p => (codeOf p.1, p.2) }
   let cl := cleanupMounts raw
   let classes := classesOf dflt cl
   let mounts := effMounts dflt cl
@@ -219,7 +219,7 @@ def runBlock (hash : String) (minM : Int) (svcs : List PService) (reps : List (N
     | some m => s!"{si}.{mi}:{if m.ro then 1 else 0}:{m.repl}"
     | none => s!"{si}.{mi}:x"
   let pre := s!"classes={",".intercalate (classes.map (classNames[·]!))} mounts={dash ms ","}"
-  match explore cx { slots := initSlots mounts mreps, utd := [], underrep := false } with
+  match explore cx (initState env classes mounts mreps) with
   | none => throw "too-many-ties"
   | some finals => pure (pre, (finals.map (outcome cx short)).eraseDups)
 
